@@ -63,6 +63,8 @@ type model struct {
 	removed map[oid.Address]bool
 	// raced: removal completed while a parked flusher was holding the object
 	raced map[oid.Address]bool
+	// resynced: a live resync happened after such a race
+	resynced map[oid.Address]bool
 	// kind of the operation currently applied (nesting: race > inner)
 	kinds []string
 	// statistics for the non-triviality rule
@@ -217,7 +219,7 @@ func TestC09Removed(t *testing.T) {
 		}
 		defer r.Cleanup()
 		w := crashrig.NewWorld(r)
-		m := &model{r: r, removed: map[oid.Address]bool{}, raced: map[oid.Address]bool{}, eventsAfter: map[string]bool{}}
+		m := &model{r: r, removed: map[oid.Address]bool{}, raced: map[oid.Address]bool{}, resynced: map[oid.Address]bool{}, eventsAfter: map[string]bool{}}
 		r.OnStep = m.onStep
 		r.SnapMeta = m.snapMeta
 		// crash snapshots matter only once something has been removed
@@ -231,7 +233,9 @@ func TestC09Removed(t *testing.T) {
 		)
 		fail := func(v violation, extra string) {
 			r.Lock()
-			raced := m.raced[v.addr]
+			// known class: an in-flight flush of the object overlapped its complete
+			// removal (orphan blob) AND a resync has turned the orphan into metadata
+			raced := m.raced[v.addr] && (m.resynced[v.addr] || strings.Contains(v.where, "resync"))
 			r.Unlock()
 			if raced {
 				if rec.Known(fpRace) {
@@ -273,12 +277,18 @@ func TestC09Removed(t *testing.T) {
 					a := crashrig.RegAddr(op.C, op.I)
 					delete(m.removed, a)
 					delete(m.raced, a)
+					delete(m.resynced, a)
 				}
 				return
 			}
 			m.kinds = m.kinds[:len(m.kinds)-1]
 			if m.cur() != crashrig.KRace {
 				depth = 0
+			}
+			if op.Kind == crashrig.KResync {
+				for a := range m.raced {
+					m.resynced[a] = true
+				}
 			}
 			if len(m.removed) > 0 {
 				switch op.Kind {
